@@ -319,6 +319,13 @@ func TestReplay(t *testing.T) {
 		writeReplayRaw(rf.Property, rf.Sub, rf.Case, o.Viol)
 		t.Fatalf("replayed case violates %s: %s", rf.Property, o.Viol.Msg)
 	}
+	seen := map[string]bool{}
+	for _, id := range o.Tolerated {
+		if k, ok := knownByID[id]; ok && !seen[id] {
+			seen[id] = true
+			fmt.Printf("KNOWN-FINDING: property=%s %s [%s]\n", k.Property, k.What, id)
+		}
+	}
 	fmt.Printf("replayed case holds for %s/%s\n", rf.Property, rf.Sub)
 }
 
